@@ -49,8 +49,8 @@ def _frame_exprs(f: Func) -> Set[str]:
     return out
 
 
-def rule_p1(ctx, pl: Pipeline) -> None:
-    ctx.rule("C05-P1", "no row-dropping / row-reordering operation on the row container between input and output", 8)
+def rule_p1(ctx, pl: Pipeline, rule_id: str = "C05-P1", only_duplicates: bool = False) -> None:
+    ctx.rule(rule_id, "no row-dropping / row-reordering operation on the row container between input and output" if not only_duplicates else "no de-duplication of the row frame (a row would vanish because of another row of its batch)", 8 if not only_duplicates else 1)
     prog = ctx.prog
     pre = prog.func(PREPROCESS)
     spl = prog.func(SPLITTER)
@@ -67,15 +67,15 @@ def rule_p1(ctx, pl: Pipeline) -> None:
         env = Env(func=f, params={}, inst=inst)
         for n in own_nodes(f.node):
             # frame = frame[mask]
-            if isinstance(n, ast.Assign) and isinstance(n.value, ast.Subscript) and unparse(n.value.value) in frames:
+            if not only_duplicates and isinstance(n, ast.Assign) and isinstance(n.value, ast.Subscript) and unparse(n.value.value) in frames:
                 key = n.value.slice
                 is_cols = isinstance(key, ast.Constant) or (isinstance(key, (ast.List, ast.Tuple)) and all(isinstance(e, ast.Constant) for e in key.elts))
                 col_param = isinstance(key, ast.Name) and key.id in f.params or (isinstance(key, ast.Attribute) and key.attr.endswith("_col"))
                 col_expr = ".columns" in unparse(key)
                 if any(unparse(t) in frames for t in n.targets) and not is_cols and not col_param and not col_expr:
-                    ctx.instance("C05-P1", "%s: %s" % (f.name, unparse(n)[:70]), f.loc(n), ok=False, klass="mask-filter")
+                    ctx.instance(rule_id, "%s: %s" % (f.name, unparse(n)[:70]), f.loc(n), ok=False, klass="mask-filter")
                     ctx.finding(
-                        "C05-P1",
+                        rule_id,
                         "%s.%s:mask-filter" % (f.qualname.split(".")[-2], f.name) if f.cls else "%s:mask-filter" % f.name,
                         f.loc(n),
                         "the row frame is replaced by a boolean-mask selection of itself (%s): rows for which the mask is False disappear and later rows shift" % unparse(n)[:60],
@@ -89,21 +89,25 @@ def rule_p1(ctx, pl: Pipeline) -> None:
                         v = ctx.ev.eval(c, env)
                         if p and v == frozenset({Val("const", False)}):
                             switch_false = True
-                    ctx.instance("C05-P1", "%s: drop_duplicates under %s (switch bound to False at the call site: %s)" % (f.name, [unparse(c) for c, p in g], switch_false), f.loc(n), ok=switch_false)
+                    ctx.instance(rule_id, "%s: drop_duplicates under %s (switch bound to False at the call site: %s)" % (f.name, [unparse(c) for c, p in g], switch_false), f.loc(n), ok=switch_false)
                     if not switch_false:
-                        ctx.finding("C05-P1", "%s.%s:drop_duplicates" % (f.qualname.split(".")[-2], f.name), f.loc(n), "duplicate reactions are dropped from the row frame (switch is not the constant False on the pipeline path)")
+                        ctx.finding(rule_id, "%s.%s:drop_duplicates" % (f.qualname.split(".")[-2], f.name), f.loc(n), "duplicate reactions are dropped from the row frame (switch is not the constant False on the pipeline path)")
+                elif only_duplicates:
+                    pass
                 elif m in ROW_DROPPING_METHODS:
-                    ctx.instance("C05-P1", "%s: %s" % (f.name, unparse(n)[:60]), f.loc(n), ok=False)
-                    ctx.finding("C05-P1", "%s:%s" % (f.qualname.split("synrbl.", 1)[-1], m), f.loc(n), "row-dropping / row-reordering frame operation %s()" % m)
+                    ctx.instance(rule_id, "%s: %s" % (f.name, unparse(n)[:60]), f.loc(n), ok=False)
+                    ctx.finding(rule_id, "%s:%s" % (f.qualname.split("synrbl.", 1)[-1], m), f.loc(n), "row-dropping / row-reordering frame operation %s()" % m)
                 elif m == "drop":
                     axis = next((k.value for k in n.keywords if k.arg == "axis"), None)
                     cols = any(k.arg == "columns" for k in n.keywords)
                     ok = cols or (isinstance(axis, ast.Constant) and axis.value in (1, "columns"))
-                    ctx.instance("C05-P1", "%s: %s (column drop: %s)" % (f.name, unparse(n)[:60], ok), f.loc(n), ok=ok)
+                    ctx.instance(rule_id, "%s: %s (column drop: %s)" % (f.name, unparse(n)[:60], ok), f.loc(n), ok=ok)
                     if not ok:
-                        ctx.finding("C05-P1", "%s:drop-rows" % f.qualname.split("synrbl.", 1)[-1], f.loc(n), "rows are dropped from the frame: %s" % unparse(n)[:60])
+                        ctx.finding(rule_id, "%s:drop-rows" % f.qualname.split("synrbl.", 1)[-1], f.loc(n), "rows are dropped from the frame: %s" % unparse(n)[:60])
                 elif m in ("reset_index", "to_dict", "apply", "rename", "copy", "astype"):
-                    ctx.instance("C05-P1", "%s: %s (row-count preserving)" % (f.name, unparse(n)[:50]), f.loc(n), ok=True, nontrivial=False)
+                    ctx.instance(rule_id, "%s: %s (row-count preserving)" % (f.name, unparse(n)[:50]), f.loc(n), ok=True, nontrivial=False)
+    if only_duplicates:
+        return
     # stages: in-place removal / reordering of the row list, or rebinding it in the pipeline
     for st in pl.stages:
         if st.inline:
@@ -122,18 +126,18 @@ def rule_p1(ctx, pl: Pipeline) -> None:
                 bad = n
             if isinstance(n, ast.Assign) and any(isinstance(t, ast.Subscript) and isinstance(t.slice, ast.Slice) and isinstance(t.value, ast.Name) and t.value.id in rows_params for t in n.targets):
                 bad = n
-        ctx.instance("C05-P1", "stage %d %s does not remove/reorder rows in place" % (st.index, st.label), st.where(), ok=bad is None)
+        ctx.instance(rule_id, "stage %d %s does not remove/reorder rows in place" % (st.index, st.label), st.where(), ok=bad is None)
         if bad is not None:
-            ctx.finding("C05-P1", "%s:in-place-row-removal" % g.qualname.split("synrbl.", 1)[-1], g.loc(bad), "the row list is mutated in place: %s" % unparse(bad)[:60])
+            ctx.finding(rule_id, "%s:in-place-row-removal" % g.qualname.split("synrbl.", 1)[-1], g.loc(bad), "the row list is mutated in place: %s" % unparse(bad)[:60])
         if st.rows_rebound and st.index != 0:
-            ctx.instance("C05-P1", "stage %d %s rebinds the row list" % (st.index, st.label), st.where(), ok=False)
-            ctx.finding("C05-P1", "Balancer.__run_pipeline:rows-rebound@%s" % st.label, st.where(), "the row list is replaced by the result of %s after preprocessing (rows may be dropped or reordered)" % st.label)
+            ctx.instance(rule_id, "stage %d %s rebinds the row list" % (st.index, st.label), st.where(), ok=False)
+            ctx.finding(rule_id, "Balancer.__run_pipeline:rows-rebound@%s" % st.label, st.where(), "the row list is replaced by the result of %s after preprocessing (rows may be dropped or reordered)" % st.label)
     # filtering comprehension assigned back to the rows in the pipeline function itself
     f = pl.func
     for n in own_nodes(f.node):
         if isinstance(n, ast.Assign) and any(isinstance(t, ast.Name) and t.id == pl.rows_param for t in n.targets) and isinstance(n.value, (ast.ListComp, ast.GeneratorExp)):
             if any(g.ifs for g in n.value.generators):
-                ctx.finding("C05-P1", "Balancer.__run_pipeline:filtering-comprehension", f.loc(n), "the row list is rebound to a filtered comprehension")
+                ctx.finding(rule_id, "Balancer.__run_pipeline:filtering-comprehension", f.loc(n), "the row list is rebound to a filtered comprehension")
 
 
 def rule_p2(ctx) -> None:
@@ -325,6 +329,47 @@ def rule_p7(ctx) -> None:
         return None
 
     zs = [n for n in own_nodes(imp.node) if isinstance(n, ast.For) and zip_of(n.iter) is not None]
+    # alternative: column-wise copy between two frames, `out_df[c] = in_df[c]` - pandas aligns it on index *labels*
+    col_copies = []
+    for n in own_nodes(imp.node):
+        if isinstance(n, ast.Assign) and len(n.targets) == 1 and isinstance(n.targets[0], ast.Subscript) and isinstance(n.targets[0].value, ast.Name):
+            v = n.value
+            positional = False
+            while isinstance(v, (ast.Attribute, ast.Call)):
+                if isinstance(v, ast.Attribute) and v.attr in ("values", "array"):
+                    positional = True
+                    v = v.value
+                elif isinstance(v, ast.Call) and isinstance(v.func, ast.Attribute) and v.func.attr in ("to_numpy", "tolist", "to_list"):
+                    positional = True
+                    v = v.func.value
+                else:
+                    break
+            if isinstance(v, ast.Subscript) and isinstance(v.value, ast.Name) and v.value.id != n.targets[0].value.id and unparse(v.slice) == unparse(n.targets[0].slice):
+                col_copies.append((n, n.targets[0].value.id, v.value.id, positional))
+    for n, dst, src, positional in col_copies:
+        # is the source frame's index anything but the default 0..n-1 ?
+        chain, work = set(), [src]
+        while work:
+            nm = work.pop()
+            if nm in chain:
+                continue
+            chain.add(nm)
+            for _st, v, _i in assignments_to(imp, nm):
+                work.extend(x.id for x in ast.walk(v) if isinstance(x, ast.Name))
+        relabel = None
+        for x in own_nodes(imp.node):
+            if isinstance(x, ast.Call) and isinstance(x.func, ast.Attribute) and x.func.attr in ("set_index", "sort_values", "sort_index", "sample", "dropna", "drop_duplicates", "query") and any(isinstance(y, ast.Name) and y.id in chain for y in ast.walk(x.func.value)):
+                relabel = x
+            if isinstance(x, ast.Call) and unparse(x.func).split(".")[-1] == "read_csv" and any(k.arg == "index_col" and not (isinstance(k.value, ast.Constant) and k.value.value in (None, False)) for k in x.keywords):
+                relabel = x
+            if isinstance(x, ast.Subscript) and isinstance(x.value, ast.Name) and x.value.id in chain and isinstance(getattr(x, "_parent", None), ast.Assign) and x._parent.value is x and isinstance(x.slice, (ast.Compare, ast.Call, ast.Name)) and any(isinstance(t, ast.Name) and t.id in chain for t in x._parent.targets):
+                relabel = x
+        ok = positional or relabel is None
+        ctx.instance("C05-P7", "impute: %s copies a column between frames (positional: %s, source index re-labelled: %s)" % (unparse(n)[:50], positional, unparse(relabel)[:40] if relabel is not None else "no"), imp.loc(n), ok=ok)
+        if not ok:
+            ctx.finding("C05-P7", "SynCmd.cmd_run.impute:frame-alignment", imp.loc(n), "%s aligns the pass-through column on index labels, and the input frame's index is not the default 0..n-1 (%s): values attach to the row whose position equals the old label, or become NaN" % (unparse(n)[:50], unparse(relabel)[:50]))
+    if col_copies and not zs:
+        return
     ctx.require(zs, "cmd_run.impute no longer zips inputs with outputs")
     for z in zs:
         a, b = zip_of(z.iter).args
